@@ -77,19 +77,19 @@ def plan(tier):
 def floors(tier):
     """About a quarter to a third of the counts seen on the unchanged tree (thorough: x5 for 8x the cases)."""
     k = 5 if tier == "thorough" else 1
-    f = {"evaluations": 600, "gauge_steps": 4000, "steps_normalize_False": 1700, "state_comparisons": 3600,
+    f = {"evaluations": 500, "gauge_steps": 4000, "steps_normalize_False": 1700, "state_comparisons": 3600,
          "isometry_checks": 8500, "step:canonize_": 1300, "step:orthogonalize_site_": 650, "step:diagonalize_central_": 350,
          "step:absorb_central_": 600, "step:truncate_nonbinding": 250, "binding_truncations": 180, "binding:truncate_": 330,
          "binding:manual-sweep": 330, "identity:normalize=False": 330, "identity:normalize=True": 330,
          "cut_multiset_checks": 1200, "cut_multiset_binding": 160, "schmidt_cuts_compared": 1400, "entropies_compared": 1400,
-         "norm_compared": 300, "is_canonical_checked": 600, "final_to_tensor_crosschecks": 500, "start:ghz": 36,
+         "norm_compared": 300, "is_canonical_checked": 600, "final_to_tensor_crosschecks": 400, "start:ghz": 36,
          "start:doubled": 40, "twin_checks": 100, "start:zero-state": 15, "start:product": 25, "start:identity": 3,
          "opts:D_block-dict-shuffled": 40, "opts:D_block-dict-shuffled:binding": 20, "defaults:canonize_": 150,
          "defaults:canonize_:all-omitted": 25, "defaults:truncate_": 60, "defaults:orthogonalize_site_": 80,
          "defaults:absorb_central_": 100, "defaults:diagonalize_central_": 40, "states_with_site_amplitude_scale": 150, "states_with_tiny_site_amplitude": 80,
          "states_with_huge_site_amplitude": 40, "states_with_site_amplitude_scale_and_factor": 40, "start:graded": 60, "start:graded-harness": 25, "small_weight_truncations": 20,
          "small_weight_local_truncations": 20, "weights_compared_relatively": 600, "local_weights_compared_relatively": 1200, "start:sum-of-products": 40, "start:random": 40, "rank_deficient_cuts": 30, "tie_cuts": 28,
-         "kind:mpo": 120, "N=1": 30, "N=2": 150, "N=6": 60, "must_reject": 70}
+         "kind:mpo": 120, "N=1": 24, "N=2": 120, "N=6": 60, "must_reject": 70}
     return {name: v * k for name, v in f.items()}
 
 
